@@ -214,6 +214,9 @@ func cfgStores(c *Ctx, r *Report, rule string, durations, funcs bool, hooks ...b
 				}
 				storeInstr := storeAt(st)
 				state := fr.blockIn[storeInstr.Block().Index]
+				if at, ok := fr.stateAt[storeInstr]; ok {
+					state = at // facts established earlier in the store's own block (a helper's result)
+				}
 				if os.Getenv("MBDBG") != "" {
 					fmt.Fprintf(os.Stderr, "cfgStore %s.%s in %s cf=%v state=%s val=%s\n", spec.name, fname, st.fn.Name(), cf, state.String(), describeAV(fr.val(st.val)))
 				}
